@@ -369,7 +369,10 @@ PROPS = {
                  "succeeding / clearing calls, each thread must only ever see its own message; panics: a function "
                  "definition that panics on demand in check_param (parse), compile or its body (match) with the "
                  "catcher enabled must give Status::Panic with the message in last-error, must not unwind, and the "
-                 "next call on the thread must work. distinct_nontrivial = distinct filter texts / sequences."),
+                 "next call on the thread must work; json-value-mirror: 90 near-valid JSON texts x every field + "
+                 "one-character mutations of valid documents through the per-field JSON setter vs "
+                 "Type::deserialize_value on the same text (same accept/reject, same stored value, message on "
+                 "refusal). distinct_nontrivial = distinct filter texts / sequences."),
         "quick": [st("rel"), st("asan")],
         "thorough": [st("rel"), st("dbg"), st("asan", env={"ASAN_OPTIONS": "halt_on_error=1:abort_on_error=1:detect_leaks=1"}),
                      st("miri", only="panics", jobs=1, shards=8, name="panics", timeout=5400), st("miri", only="setters", jobs=1, shards=8, name="setters", timeout=5400),
@@ -377,7 +380,8 @@ PROPS = {
                      st("miri", only="error-sequences", jobs=1, shards=8, name="error-sequences", timeout=5400)],
         "floors": {"quick": {"evaluations": 150000, "distinct_nontrivial": 3000, "matches_compared": 2500,
                              "parse_errors_compared": 500, "setter_failures": 8000, "setter_successes": 800,
-                             "panics_reported_as_status": 150}},
+                             "panics_reported_as_status": 150, "json_value_accepted_by_both": 2000,
+                             "json_value_refused_by_both": 5000}},
         "on_death": "sanitizer",
         "assumptions": COMMON_ASSUMPTIONS + ["the C functions are exercised through the rlib (same code as the cdylib, minus the C calling convention boundary); byte values handed to the context are kept alive by the harness as the C contract requires"],
     },
